@@ -15,7 +15,9 @@ PROPS = "Props/C14.v"
 RULE = ("one case = one value x one route (pickle protocol 0..5, copy.copy, copy.deepcopy). DateTime: for each chosen zone (quick: 60 incl. ODD_ZONES, "
         "thorough: all) its gaps/overlaps (explicit table + POSIX-rule years) probed inside and just outside the repeated/skipped wall interval with fold 0 and 1, "
         "random wall times, naive values incl. 0001-01-01 / 9999-12-31T23:59:59.999999, UTC, fixed offsets (named and unnamed); Date: boundaries + random; "
-        "Time: boundaries x fold x tzinfo; Duration and AbsoluteDuration: EVERY subset of the 8 components (years months weeks days hours minutes seconds "
+        "standard-library (foreign) tzinfos - datetime.timezone.utc, datetime.timezone(+-offset incl. sub-minute and +-23:59:59), zoneinfo.ZoneInfo(key) - on DateTime "
+        "(pinned 2013-10-27T02:30, random walls, ZoneInfo gaps/overlaps with fold 0 and 1), Time and Interval endpoints, observed through utcoffset / instant / tzinfo "
+        "type and offset-or-key; Time: boundaries x fold x tzinfo; Duration and AbsoluteDuration: EVERY subset of the 8 components (years months weeks days hours minutes seconds "
         "microseconds) with all-positive, all-negative and mixed signs; Interval: forward / inverted / absolute, DateTime endpoints (same zone, two zones, fixed, "
         "naive, ambiguous endpoints with fold 0/1) and Date endpoints; Timezone (every chosen zone) and FixedTimezone objects; the generated MRO / resolution tables "
         "against the live classes. non-trivial = distinct (value, route).")
@@ -178,6 +180,48 @@ def cases(tier, seed):
     for e1, e2 in ivs:
         for ab in (0, 1):
             _routes(out, "iv-date" if e1[0] == 0 else "iv-dt", "iv", [ab, e1, e2])
+    # --- standard-library ("foreign") tzinfo: ["S", off] = datetime.timezone(timedelta(seconds=off)) (off 0: timezone.utc), ["Z", key] = zoneinfo.ZoneInfo(key).
+    #     DateTime.tz / .timezone are None for these.  Own generator so that the streams above stay what they were for a given seed.
+    rf = random.Random(seed * 7919 + 14)
+    std = [["S", 0], ["S", 3600], ["S", -3661], ["S", 20700], ["S", 86399], ["S", -86399]]
+    W0230 = 63518437800 * T.MEG          # 2013-10-27T02:30:00, repeated in Europe/Paris
+    for fz in std + [["Z", "Europe/Paris"], ["Z", "UTC"]]:
+        for f in (0, 1):
+            _routes(out, "dt-foreign-pinned", "dt", [W0230, f, fz])
+    for fz in std:
+        for _ in range(8 if thorough else 2):
+            W = rf.randrange(lo, hi)
+            for f in (0, 1):
+                _routes(out, "dt-foreign-offset", "dt", [W, f, fz])
+    zf = list(zs) if thorough else rf.sample(list(zs), 14)
+    for name in zf:
+        W = rf.randrange(lo, hi)
+        _routes(out, "dt-foreign-zoneinfo", "dt", [W, rf.randrange(2), ["Z", name]])
+        for (tt, o_pre, o_post) in T.transition_probes(name, rf, per_zone=(4 if thorough else 1)):
+            a = (tt + T.EPOCH_S + min(o_pre, o_post)) * T.MEG
+            b = (tt + T.EPOCH_S + max(o_pre, o_post)) * T.MEG
+            for W in ((a + b) // 2 + 250001, a - 1):
+                if lo < W < hi:
+                    for f in (0, 1):
+                        _routes(out, "dt-foreign-zoneinfo", "dt", [W, f, ["Z", name]])
+    for t in tods[:5]:
+        for f in (0, 1):
+            for tz in (["S", 0], ["S", -3661], ["S", 86399], ["Z", "Europe/Paris"]):
+                _routes(out, "time-foreign", "time", [t, f, tz])
+    ivf = []
+    for _ in range(40 if thorough else 6):
+        W1 = rf.randrange(lo + 800 * T.US_DAY, hi - 800 * T.US_DAY)
+        W2 = W1 + rf.randrange(-400 * T.US_DAY, 400 * T.US_DAY)
+        z1, z2 = zs[rf.randrange(len(zs))], zs[rf.randrange(len(zs))]
+        ivf.append([[1, W1, rf.randrange(2), ["Z", z1]], [1, W2, 0, ["Z", z1]]])          # the same ZoneInfo object at both ends
+        ivf.append([[1, W1, 0, ["Z", z1]], [1, W2, 0, ["Z", z2]]])
+        ivf.append([[1, W1, 0, ["Z", z1]], [1, W2, 0, z1]])                                # ZoneInfo(key) against Timezone(key)
+        ivf.append([[1, W1, 0, rf.choice(std)], [1, W2, 0, rf.choice(std)]])
+        ivf.append([[1, W1, 0, ["S", 0]], [1, W2, 0, "UTC"]])
+    ivf.append([[1, W0230, 1, ["Z", "Europe/Paris"]], [1, W0230 + 5400 * T.MEG, 0, ["Z", "Europe/Paris"]]])
+    for e1, e2 in ivf:
+        for ab in (0, 1):
+            _routes(out, "iv-foreign", "iv", [ab, e1, e2])
     # --- Timezone / FixedTimezone objects
     for name in zs:
         _routes(out, "tz-named", "tz", [name])
@@ -224,6 +268,10 @@ def _mk_tz(spec):
         return None
     if isinstance(spec, str):
         return Timezone(spec)
+    if spec[0] == "S":
+        return _dt.timezone.utc if spec[1] == 0 else _dt.timezone(_dt.timedelta(seconds=spec[1]))
+    if spec[0] == "Z":
+        return zoneinfo.ZoneInfo(spec[1])
     _, off, name = spec
     return FixedTimezone(off, name) if name is not None else FixedTimezone(off)
 
@@ -237,6 +285,12 @@ def _tz_obs(tz):
     if type(tz) is FixedTimezone:
         nm = tz.name
         return [2, tz.offset, len(nm)] + [ord(ch) for ch in nm]
+    if type(tz) is _dt.timezone:
+        o = tz.utcoffset(None)
+        us = (o.days * 86400 + o.seconds) * T.MEG + o.microseconds
+        return [3, us // T.MEG] if us % T.MEG == 0 else [7, 3]
+    if type(tz) is zoneinfo.ZoneInfo:
+        return [4, key_index(tz.key)] if tz.key is not None else [7, 4]
     return [7]
 
 
@@ -392,17 +446,34 @@ def _tz_enc(spec, lo_w, hi_w):
         return [0]
     if isinstance(spec, str):
         return [1, key_index(spec)] + T.zone_enc(spec, T.unix_of_wall(lo_w) - 90000, T.unix_of_wall(hi_w) + 90000)
+    if spec[0] == "S":
+        return [4, spec[1]]
+    if spec[0] == "Z":
+        return [5, key_index(spec[1])] + T.zone_enc(spec[1], T.unix_of_wall(lo_w) - 90000, T.unix_of_wall(hi_w) + 90000)
     _, off, name = spec
     if not name:
         return [3, off]          # FixedTimezone(off): the model computes the default name
     return [2, off, len(name)] + [ord(ch) for ch in name]
 
 
+def _zone_of(tzs):
+    """The tz-database key behind a tz spec (Timezone(key) or ZoneInfo(key)), else None."""
+    if isinstance(tzs, str):
+        return tzs
+    if isinstance(tzs, (list, tuple)) and tzs and tzs[0] == "Z":
+        return tzs[1]
+    return None
+
+
+def _is_foreign(tzs):
+    return isinstance(tzs, (list, tuple)) and bool(tzs) and tzs[0] in ("S", "Z")
+
+
 def _ep_enc(e, span):
     if e[0] == 0:
         return [0, e[1]]
     _, W, f, tzs = e
-    lo, hi = span.get(tzs, (W, W)) if isinstance(tzs, str) else (W, W)
+    lo, hi = span.get(_zone_of(tzs), (W, W))
     return [1, W, f] + _tz_enc(tzs, lo, hi)
 
 
@@ -425,9 +496,10 @@ def model_calls(c, backend):
         ab, e1, e2 = v
         span = {}
         for e in (e1, e2):
-            if e[0] == 1 and isinstance(e[3], str):
-                lo, hi = span.get(e[3], (e[1], e[1]))
-                span[e[3]] = (min(lo, e[1]), max(hi, e[1]))
+            if e[0] == 1 and _zone_of(e[3]) is not None:
+                zn = _zone_of(e[3])
+                lo, hi = span.get(zn, (e[1], e[1]))
+                span[zn] = (min(lo, e[1]), max(hi, e[1]))
         body = [ab] + _ep_enc(e1, span) + _ep_enc(e2, span)
     elif fn == "tz":
         body = _tz_enc(v[0], 735000 * T.US_DAY, 735000 * T.US_DAY)
@@ -460,8 +532,8 @@ def same(c, m, r):
 def _ref_tz(spec):
     if spec is None:
         return None
-    if isinstance(spec, str):
-        return zoneinfo.ZoneInfo(spec)
+    if _zone_of(spec) is not None:
+        return zoneinfo.ZoneInfo(_zone_of(spec))
     return _dt.timezone(_dt.timedelta(seconds=spec[1]))
 
 
@@ -539,9 +611,9 @@ def oracle(c, backend, r):
 
 
 def _offsets_differ(W, tzs):
-    if not isinstance(tzs, str):
+    if _zone_of(tzs) is None:
         return False
-    tz = zoneinfo.ZoneInfo(tzs)
+    tz = zoneinfo.ZoneInfo(_zone_of(tzs))
     return T.off_s(T.native(W, 0, tz)) != T.off_s(T.native(W, 1, tz))
 
 
@@ -553,6 +625,12 @@ def known(c, backend, r):
     st, ty, eq, co, cc, eo, ec = r
     if fn == "dt":
         W, f, tzs = a[1:]
+        # (repaired: `fix: DateTime.__deepcopy__ keeps a tzinfo that is not a pendulum timezone`) __deepcopy__ passed tzinfo=self.tz, which is
+        # None for a standard-library tzinfo: the deep copy is the NAIVE datetime with the same fields and fold
+        if route == 7 and _is_foreign(tzs) and st == 0 and ty and not eq:
+            if cc == _ref_dt_core(W, f, None) + [0]:
+                return "deepcopy-foreign-tzinfo-naive"
+            return None
         # pickle / copy.copy rebuild from _getstate(), which has no fold: the copy is exactly the fold=0 reading of the same fields
         if route <= 6 and f == 1 and st == 0 and ty and eq:
             exp = _ref_dt_core(W, 0, tzs) + co[11:]
@@ -634,11 +712,15 @@ def _tzlen(core, i):
         return 2
     if k == 2:
         return 3 + core[i + 2]
+    if k in (3, 4):
+        return 2
     return 1
 
 
 LEVEL_TEXT = ("Machine-checked Coq theorems over the protocol model (Model/Pickle.v interpreting the argument lists generated from the class bodies): for every "
-              "route (pickle 0..5, copy, deepcopy) Date, Timezone and FixedTimezone values are rebuilt identically; DateTime.__deepcopy__ rebuilds identically; "
+              "route (pickle 0..5, copy, deepcopy) Date, Timezone and FixedTimezone values are rebuilt identically; DateTime.__deepcopy__ rebuilds identically for EVERY "
+              "tzinfo, including standard-library ones (datetime.timezone, zoneinfo.ZoneInfo: DateTime.tz is None for them) - full strength since the repair of "
+              "deepcopy-foreign-tzinfo-naive (__deepcopy__ passed tzinfo=self.tz and returned a naive copy); every route keeps such a tzinfo; "
               "pickle/copy of a DateTime rebuild exactly the fold=0 reading of the same fields (so: identical when fold=0, same instant and offset whenever the wall "
               "time is unique in the zone; REFUTED with fold=1 on a repeated wall time: Europe/Paris 2013-10-27T02:30+01:00 comes back +02:00); Time likewise loses "
               "fold on every route; Duration pickle/copy preserve the native timedelta value always and all components exactly when years=months=0 (REFUTED otherwise), "
@@ -646,7 +728,8 @@ LEVEL_TEXT = ("Machine-checked Coq theorems over the protocol model (Model/Pickl
               "constructed Interval, pickle is the identity when no endpoint has fold=1 (REFUTED otherwise), copy.deepcopy of an Interval ALWAYS raises TypeError. "
               "The model is tied to /repo by regeneration of the argument lists and by correspondence on real objects over all 8 routes, both backends.")
 DESIGN_REF = "DESIGN.md section 4 C14"
-LEVEL_NOTE = ("Trusted: Coq kernel+VM; CPython's pickle/copy protocol and native reducers as stated in Model/Pickle.v; the generator's reading of the class bodies "
+LEVEL_NOTE = ("Trusted: Coq kernel+VM; CPython's pickle/copy protocol and native reducers as stated in Model/Pickle.v (standard-library tzinfo objects are opaque values "
+              "of that protocol: they come back equal; checked on every run by the dt-foreign-* / time-foreign streams); the generator's reading of the class bodies "
               "(fail closed on unknown shapes; MRO/resolution tables compared with the live classes each run); Spec/Zone.v, Model/Duration.v (validated by C02/C09 and here); "
               "extraction+driver cross-checked with vm_compute.")
 TECHNIQUE = "Coq proofs over a data-driven protocol model (argument lists generated from the AST) + differential correspondence on real objects through 8 copy routes"
